@@ -47,10 +47,10 @@ def run(rep):
     made = 0
     while made < N:
         p = gen.gen_pat(rng, rng.choice((1, 2, 3, 4)))
-        # instantiate is compared on patterns the machine can hold (meta-headed, non-redundant substitutions):
-        # on others the Rust "unchanged" shortcut of instantiate_internal is observable and not modelled
-        if not pm.subst_wf(p):
-            continue
+        # instantiate is compared on ALL patterns (wf_shape or not): the driver's `inst` is `Pat.instU`, which models the
+        # "unchanged" shortcut of instantiate_internal; `InstUThm.instU_eq_inst` relates it to `inst` on meta-headed patterns
+        if rng.random() < 0.5 and not pm.subst_wf(p):
+            p = gen.gen_pat(rng, rng.choice((1, 2, 3)), wf_shape=False)
         made += 1
         n = rng.choice((0, 1, 2, 3))
         ids = [rng.choice(gen.IDS) for _ in range(n)]
